@@ -565,3 +565,62 @@ func writeEvidence(root string, spec *CheckSpec, tier string, seed int64, P *Pro
 }
 
 func round2(f float64) float64 { return float64(int(f*100+0.5)) / 100 }
+
+// RunReplayOne replays one stored vector natively and prints the native result.
+func RunReplayOne(root, property, file string) int {
+	specB, err := os.ReadFile(filepath.Join(root, "checks", property+".json"))
+	if err != nil {
+		fmt.Println(err)
+		return 2
+	}
+	var spec CheckSpec
+	json.Unmarshal(specB, &spec)
+	b, err := os.ReadFile(file)
+	if err != nil {
+		fmt.Println(err)
+		return 2
+	}
+	var doc struct {
+		Entry   string              `json:"entry"`
+		Params  map[string]int64    `json:"params"`
+		Values  map[string][]string `json:"values"`
+		Choices []int               `json:"choices"`
+		Label   string              `json:"label"`
+	}
+	json.Unmarshal(b, &doc)
+	P, err := LoadProgram(spec.Harness)
+	if err != nil {
+		fmt.Println(err)
+		return 2
+	}
+	pkgDir := ""
+	for _, h := range spec.Harness {
+		for _, en := range P.harnessEntries(repoMod + "/" + h.Pkg) {
+			if en == doc.Entry {
+				pkgDir = h.Pkg
+			}
+		}
+	}
+	v := &Violation{Label: doc.Label, Values: doc.Values, Choices: doc.Choices, Params: doc.Params, Entry: doc.Entry}
+	// the same vector inside the interpreter (concrete run)
+	_, kfOpen := loadKnown(root)
+	jr := RunJob(P, JobSpec{Entry: doc.Entry, Pkg: repoMod + "/" + pkgDir, Params: doc.Params, InitPkgs: spec.InitPkgs, Fixed: v, Samples: 1}, kfOpen)
+	fmt.Printf("INTERPRETER: paths=%d ends=%v err=%s incon=%v\n", jr.Paths, jr.PathsByEnd, jr.Err, jr.Incon)
+	for _, vv := range jr.Violations {
+		fmt.Printf("INTERPRETER: assertion failed: %s\n", vv.Label)
+	}
+	for _, sv := range jr.Samples {
+		fmt.Printf("INTERPRETER: trace %s\n", sv.Known)
+	}
+	out, text, err := nativeReplay(P, spec.Harness, pkgDir, []*Violation{v}, "")
+	fmt.Println(text)
+	if err != nil {
+		return 2
+	}
+	if hasFail(out[0].fails, doc.Label) {
+		fmt.Printf("VIOLATION property=%s replay=%s label=%q (reproduced natively)\n", property, file, doc.Label)
+		return 1
+	}
+	fmt.Printf("not reproduced: native fails=%v\n", out[0].fails)
+	return 0
+}
